@@ -241,10 +241,12 @@ impl World {
             let node = self.nodes.get_mut(&n).unwrap();
             if !same_leader {
                 node.snap_outstanding.clear();
+                node.snap_handed.clear();
             }
             match c.kind {
                 CallKind::ReportSnapshot { peer, .. } => {
                     node.snap_outstanding.remove(peer);
+                    node.snap_handed.remove(peer);
                 }
                 CallKind::Step(r) if r.get_msg_type() == MessageType::MsgAppendResponse && !r.reject => {
                     if node.snap_outstanding.get(&r.from).map(|idx| r.index >= *idx).unwrap_or(false) {
@@ -257,6 +259,12 @@ impl World {
             for k in keys {
                 if !c.post.prs_keys.contains(&k) || c.pre.conf != c.post.conf {
                     node.snap_outstanding.remove(&k);
+                }
+            }
+            let keys: Vec<u64> = node.snap_handed.keys().cloned().collect();
+            for k in keys {
+                if !c.post.prs_keys.contains(&k) {
+                    node.snap_handed.remove(&k);
                 }
             }
         }
@@ -278,6 +286,7 @@ impl World {
             for m in c.emitted {
                 if m.get_msg_type() == MessageType::MsgSnapshot {
                     node.snap_outstanding.insert(m.to, m.get_snapshot().get_metadata().index);
+                    node.snap_handed.insert(m.to, m.get_snapshot().get_metadata().index);
                 }
             }
         }
